@@ -313,10 +313,9 @@ func minI64(a, b int64) int64 {
 }
 
 func c19Copies(c *Ctx, bc *bsiCase) {
-	if c.Prop != "C19" {
-		// the copy / serialization clauses belong to C19 only (C12 reuses the update histories for their goroutine paths)
-		return
-	}
+	// the serialization clauses belong to C19 only; C12 reuses the update histories for their goroutine
+	// paths and keeps Clone / NewBSIRetainSet (which copy the planes in goroutines)
+	onlyGoroutineCopies := c.Prop != "C19"
 	r := c.R
 	x := bc.x
 	neg := ""
@@ -353,9 +352,12 @@ func c19Copies(c *Ctx, bc *bsiCase) {
 			return o, bc.m, err
 		}},
 	}
-	for _, k := range cps {
+	for i, k := range cps {
 		if c.Failed() {
 			return
+		}
+		if onlyGoroutineCopies && i >= 2 {
+			break
 		}
 		sig := x.name() + "/copy-" + k.name + neg
 		var o *bsiX
